@@ -62,8 +62,11 @@ func Build(d *Design) func() {
 			for _, e := range d.Errors {
 				in.errDef(e)
 			}
-			if len(d.APIHTTP) > 0 {
+			if len(d.APIHTTP) > 0 || d.Path != "" {
 				dsl.HTTP(func() {
+					if d.Path != "" {
+						dsl.Path(d.Path)
+					}
 					for _, er := range d.APIHTTP {
 						in.errResp(er)
 					}
